@@ -71,6 +71,11 @@ CHECKS = {
          'Held on N mutated / generated / stressor inputs through lexer, expanded lexer, parser, VM (step limit) and decompiler: every call ended in a result or a diagnostic within the allocation bound; and on N compiled programs (O0/O1/O3, incl. match and async): the VM executed them without format errors, the decompiler disassembled them completely, constants agreed, and every executed instruction started at a disassembled instruction of the same opcode.',
          'Trusts the reference walker of the container layout (c10.go) and the hook (pkg/vm/verifhook_on.go). The allocation bound (256 MiB + 8 KiB per input byte) and the 20 s watchdog are deliberately loose. Async bodies run on a separate VM and are not covered by the offset comparison.',
          'DESIGN.md §3 C10'),
+ 'C18': ('exploration',
+         'law monitors (idempotence, token-sequence preservation, expand/compact round trip on position-free syntax trees, expanded-lexer agreement, no panic) over repository examples with layout noise, generated programs with keyword-named identifiers, and mutated / random byte strings',
+         'Held on N inputs: fmt is idempotent on every byte string and preserves the token sequence of every parseable input (apart from the recorded lone-CR finding); the round-trip and expanded-text laws hold on the core generator profile, and their failures elsewhere are matched against the recorded findings by diagnostic signature.',
+         'Trusts the position-free tree rendering (c18Norm) and the token comparison (NEWLINE tokens compared as adjacency only; leading blank lines and the final newline are layout). The expand/compact laws are fully sensitive only on the core profile; outside it three recorded findings cover whole diagnostic classes.',
+         'DESIGN.md §3 C18'),
 }
 NA = {}
 for p in props:
